@@ -749,6 +749,7 @@ EXACT_CFGS = [
     ("sage", "joint", 3, 3, 1), ("sage", "product", 3, 2, 1), ("sage", "joint", 2, 4, 2), ("sage", "product", 2, 3, 2),
     ("sage", "joint", 4, 2, 1), ("pfi", "joint", 2, 5, 2), ("pfi", "product", 3, 3, 1), ("pfi-override", "joint", 2, 3, 2),
     ("sage-override", "product", 2, 2, 2), ("batch", "joint", 3, 3, 1), ("batch", "product", 2, 4, 1), ("interval", "joint", 2, 2, 1),
+    ("sage", "joint", 1, 3, 1), ("pfi", "product", 1, 2, 2), ("batch", "joint", 1, 3, 2), ("interval", "joint", 1, 2, 1),      # single-feature explainers
     ("interval", "product", 2, 3, 1), ("interval-update", "joint", 2, 2, 1), ("interval-update", "product", 2, 3, 1), ("original", None, 2, 3, 1), ("original", None, 3, 2, 1), ("original", None, 2, 2, 2),
 ]
 
